@@ -42,3 +42,45 @@ fn identifiers_of_outstanding_operations_differ_across_clones_and_kinds() {
     }
     assert_eq!(ids.len(), 3);
 }
+
+fn id_of(f: &[u8]) -> u16 {
+    match f[0] >> 4 {
+        3 => {
+            let mut pos = 1;
+            while f[pos] & 0x80 != 0 {
+                pos += 1;
+            }
+            pos += 1;
+            let tl = u16::from_be_bytes([f[pos], f[pos + 1]]) as usize;
+            u16::from_be_bytes([f[pos + 2 + tl], f[pos + 3 + tl]])
+        }
+        8 | 10 => u16::from_be_bytes([f[2], f[3]]),
+        _ => panic!("unexpected {:02x?}", f),
+    }
+}
+
+#[test]
+fn every_new_identifier_differs_from_all_outstanding_ones_in_mixed_histories() {
+    // operations of all kinds, never acknowledged: every identifier put on the wire must be new; several orders, so that
+    // identifiers drawn from a wrong counter (which may coincide with the right one for a while) are exposed
+    for order in [[0usize, 0, 1, 2, 0, 2, 1, 0], [1, 1, 2, 0, 0, 2, 2, 1], [2, 0, 0, 0, 2, 1, 2, 0], [0, 2, 2, 2, 1, 0, 1, 2]] {
+        let mut b = Bench::connected(&[]);
+        let mut outstanding: Vec<u16> = vec![];
+        let mut keep = vec![];
+        for (step, kind) in order.iter().enumerate() {
+            let mut h = b.handle.clone();
+            match kind {
+                0 => keep.push(b.exec.spawn(async move { errstr(h.publish(PublishOpts::new().topic_name("t").qos(QoS::AtLeastOnce).payload(b"p")).await) })),
+                1 => keep.push(b.exec.spawn(async move { h.subscribe(SubscribeOpts::new().subscription("a", SubscriptionOpts::new())).await.map(|_| ()).map_err(|e| format!("{:?}", e)) })),
+                _ => keep.push(b.exec.spawn(async move { h.unsubscribe(UnsubscribeOpts::new().topic_filter("a")).await.map(|_| ()).map_err(|e| format!("{:?}", e)) })),
+            }
+            b.exec.settle();
+            let w = b.written();
+            assert_eq!(w.len(), 1, "order {:?} step {}", order, step);
+            let id = id_of(&w[0]);
+            assert_ne!(id, 0);
+            assert!(!outstanding.contains(&id), "order {:?} step {}: identifier {} is still outstanding ({:?})", order, step, id, outstanding);
+            outstanding.push(id);
+        }
+    }
+}
